@@ -279,149 +279,161 @@ func c28FindReplace[T expr.Expr](t *rapid.T, col *ev.Collector, e expr.Expr, kin
 	}
 }
 
+var colC28 *ev.Collector
+
+// propC28 is the property of C28; it is shared by the rapid test and the native
+// fuzz target.
+func propC28(t *rapid.T) {
+	col := colC28
+	col.Case()
+	cfg := irsem.GenCfg{MaxDepth: rapid.IntRange(0, 4).Draw(t, "depth"), GadgetProb: 10}
+	e := irsem.GenExpr(t, cfg)
+	before := irsem.String(e)
+
+	// Equal
+	cl := irsem.Clone(e)
+	var eq bool
+	if msg := catch(func() { eq = exprtransform.Equal(e, cl) && exprtransform.Equal(cl, e) }); msg != "" {
+		t.Fatalf("Equal(%s, clone): %s", before, msg)
+	}
+	if !eq {
+		t.Fatalf("Equal(%s, deep clone) is false", before)
+	}
+	if m, desc, ok := c28Mutate(t, e); ok {
+		ms := irsem.String(m)
+		if ms == before {
+			t.Fatalf("harness bug: mutation %q did not change %s", desc, before)
+		}
+		var eq1, eq2 bool
+		if msg := catch(func() { eq1, eq2 = exprtransform.Equal(e, m), exprtransform.Equal(m, e) }); msg != "" {
+			t.Fatalf("Equal(%s, %s): %s", before, ms, msg)
+		}
+		if eq1 || eq2 {
+			t.Fatalf("Equal is true for different trees (mutation: %s):\n  %s\n  %s", desc, before, ms)
+		}
+		col.Class("mutant/" + desc)
+		if irsem.Size(e) > 1 {
+			col.Nontrivial("mut/" + before + "/" + ms)
+		}
+	}
+
+	// FindAll / ReplaceAll
+	switch rapid.IntRange(0, 4).Draw(t, "T") {
+	case 0:
+		c28FindReplace[expr.Const](t, col, e, "Const")
+	case 1:
+		c28FindReplace[expr.RegLoad](t, col, e, "RegLoad")
+	case 2:
+		c28FindReplace[expr.MemLoad](t, col, e, "MemLoad")
+	case 3:
+		c28FindReplace[expr.Binary](t, col, e, "Binary")
+	default:
+		c28FindReplace[expr.Less](t, col, e, "Less")
+	}
+
+	// effects
+	nEff := rapid.IntRange(0, 3).Draw(t, "nEff")
+	var effs []expr.Effect
+	var wantExprs []string
+	for i := 0; i < nEff; i++ {
+		v := irsem.GenExpr(t, irsem.GenCfg{MaxDepth: 1})
+		w := irsem.GenWidth(t, irsem.GenCfg{}, "ew")
+		if rapid.Bool().Draw(t, "isMem") {
+			a := irsem.GenExpr(t, irsem.GenCfg{MaxDepth: 1})
+			effs = append(effs, expr.NewMemStore(v, irsem.MemKeys[i%2], a, w))
+			wantExprs = append(wantExprs, irsem.String(a), irsem.String(v))
+		} else {
+			k := irsem.RegKeys[i%4]
+			if rapid.IntRange(0, 4).Draw(t, "ip") == 0 {
+				k = expr.IPKey
+			}
+			effs = append(effs, expr.NewRegStore(v, k, w))
+			wantExprs = append(wantExprs, irsem.String(v))
+		}
+	}
+	var gotExprs []string
+	for _, x := range exprtransform.ExprsMany(effs) {
+		gotExprs = append(gotExprs, irsem.String(x))
+	}
+	sortedEq := func(a, b []string) bool {
+		if len(a) != len(b) {
+			return false
+		}
+		cnt := map[string]int{}
+		for _, s := range a {
+			cnt[s]++
+		}
+		for _, s := range b {
+			cnt[s]--
+		}
+		for _, v := range cnt {
+			if v != 0 {
+				return false
+			}
+		}
+		return true
+	}
+	if !sortedEq(gotExprs, wantExprs) {
+		t.Fatalf("ExprsMany(%v) = %v, want the operand expressions %v", effStrings(effs), gotExprs, wantExprs)
+	}
+	wrap := func(x expr.Expr) expr.Expr { return expr.NewBinary(expr.Nand, x, expr.One, x.Width()) }
+	applied := exprtransform.EffectsApply(effs, wrap)
+	if len(applied) != len(effs) {
+		t.Fatalf("EffectsApply changed the number of effects")
+	}
+	for i, ef := range effs {
+		var single []string
+		for _, x := range exprtransform.Exprs(ef) {
+			single = append(single, irsem.String(x))
+		}
+		switch o := ef.(type) {
+		case expr.RegStore:
+			if len(single) != 1 || single[0] != irsem.String(o.Value()) {
+				t.Fatalf("Exprs(%s) = %v", irsem.EffectString(ef), single)
+			}
+			n, ok := applied[i].(expr.RegStore)
+			if !ok || n.Key() != o.Key() || n.Width() != o.Width() ||
+				irsem.String(n.Value()) != irsem.String(wrap(o.Value())) {
+				t.Fatalf("EffectApply(%s) = %s", irsem.EffectString(ef), irsem.EffectString(applied[i]))
+			}
+		case expr.MemStore:
+			if len(single) != 2 || !sortedEq(single, []string{irsem.String(o.Addr()), irsem.String(o.Value())}) {
+				t.Fatalf("Exprs(%s) = %v", irsem.EffectString(ef), single)
+			}
+			n, ok := applied[i].(expr.MemStore)
+			if !ok || n.Key() != o.Key() || n.Width() != o.Width() ||
+				irsem.String(n.Value()) != irsem.String(wrap(o.Value())) ||
+				irsem.String(n.Addr()) != irsem.String(wrap(o.Addr())) {
+				t.Fatalf("EffectApply(%s) = %s", irsem.EffectString(ef), irsem.EffectString(applied[i]))
+			}
+		}
+	}
+	if nEff > 0 {
+		col.Class(fmt.Sprintf("effects/%d", nEff))
+	}
+	if col.WantSample() {
+		col.Sample(map[string]interface{}{"expr": before, "effects": effStrings(effs)})
+	} else {
+		col.SkipSample()
+	}
+}
+
 func TestC28(t *testing.T) {
-	col := ev.New("C28", "rapid: expression trees (depth <= 4, all node kinds); Equal on (e, deep clone) and on "+
+	colC28 = ev.New("C28", "rapid: expression trees (depth <= 4, all node kinds); Equal on (e, deep clone) and on "+
 		"(e, single-node mutant: op, width, key, constant bit/width, swapped distinct children, replaced branch); "+
 		"FindAll[T]/ReplaceAll[T] for T in {Const,RegLoad,MemLoad,Binary,Less} against an own pre-order walker and "+
 		"bottom-up reference rewrite with 4 replacement policies; Exprs/ExprsMany/EffectApply/EffectsApply on "+
 		"generated register and memory stores. non-trivial = mutant of an inner node, or find/replace with >=2 "+
 		"matching nodes and a replacing policy; distinct by tree rendering")
+	col := colC28
 	defer col.Flush()
 
-	rapid.Check(t, func(t *rapid.T) {
-		col.Case()
-		cfg := irsem.GenCfg{MaxDepth: rapid.IntRange(0, 4).Draw(t, "depth"), GadgetProb: 10}
-		e := irsem.GenExpr(t, cfg)
-		before := irsem.String(e)
-
-		// Equal
-		cl := irsem.Clone(e)
-		var eq bool
-		if msg := catch(func() { eq = exprtransform.Equal(e, cl) && exprtransform.Equal(cl, e) }); msg != "" {
-			t.Fatalf("Equal(%s, clone): %s", before, msg)
-		}
-		if !eq {
-			t.Fatalf("Equal(%s, deep clone) is false", before)
-		}
-		if m, desc, ok := c28Mutate(t, e); ok {
-			ms := irsem.String(m)
-			if ms == before {
-				t.Fatalf("harness bug: mutation %q did not change %s", desc, before)
-			}
-			var eq1, eq2 bool
-			if msg := catch(func() { eq1, eq2 = exprtransform.Equal(e, m), exprtransform.Equal(m, e) }); msg != "" {
-				t.Fatalf("Equal(%s, %s): %s", before, ms, msg)
-			}
-			if eq1 || eq2 {
-				t.Fatalf("Equal is true for different trees (mutation: %s):\n  %s\n  %s", desc, before, ms)
-			}
-			col.Class("mutant/" + desc)
-			if irsem.Size(e) > 1 {
-				col.Nontrivial("mut/" + before + "/" + ms)
-			}
-		}
-
-		// FindAll / ReplaceAll
-		switch rapid.IntRange(0, 4).Draw(t, "T") {
-		case 0:
-			c28FindReplace[expr.Const](t, col, e, "Const")
-		case 1:
-			c28FindReplace[expr.RegLoad](t, col, e, "RegLoad")
-		case 2:
-			c28FindReplace[expr.MemLoad](t, col, e, "MemLoad")
-		case 3:
-			c28FindReplace[expr.Binary](t, col, e, "Binary")
-		default:
-			c28FindReplace[expr.Less](t, col, e, "Less")
-		}
-
-		// effects
-		nEff := rapid.IntRange(0, 3).Draw(t, "nEff")
-		var effs []expr.Effect
-		var wantExprs []string
-		for i := 0; i < nEff; i++ {
-			v := irsem.GenExpr(t, irsem.GenCfg{MaxDepth: 1})
-			w := irsem.GenWidth(t, irsem.GenCfg{}, "ew")
-			if rapid.Bool().Draw(t, "isMem") {
-				a := irsem.GenExpr(t, irsem.GenCfg{MaxDepth: 1})
-				effs = append(effs, expr.NewMemStore(v, irsem.MemKeys[i%2], a, w))
-				wantExprs = append(wantExprs, irsem.String(a), irsem.String(v))
-			} else {
-				k := irsem.RegKeys[i%4]
-				if rapid.IntRange(0, 4).Draw(t, "ip") == 0 {
-					k = expr.IPKey
-				}
-				effs = append(effs, expr.NewRegStore(v, k, w))
-				wantExprs = append(wantExprs, irsem.String(v))
-			}
-		}
-		var gotExprs []string
-		for _, x := range exprtransform.ExprsMany(effs) {
-			gotExprs = append(gotExprs, irsem.String(x))
-		}
-		sortedEq := func(a, b []string) bool {
-			if len(a) != len(b) {
-				return false
-			}
-			cnt := map[string]int{}
-			for _, s := range a {
-				cnt[s]++
-			}
-			for _, s := range b {
-				cnt[s]--
-			}
-			for _, v := range cnt {
-				if v != 0 {
-					return false
-				}
-			}
-			return true
-		}
-		if !sortedEq(gotExprs, wantExprs) {
-			t.Fatalf("ExprsMany(%v) = %v, want the operand expressions %v", effStrings(effs), gotExprs, wantExprs)
-		}
-		wrap := func(x expr.Expr) expr.Expr { return expr.NewBinary(expr.Nand, x, expr.One, x.Width()) }
-		applied := exprtransform.EffectsApply(effs, wrap)
-		if len(applied) != len(effs) {
-			t.Fatalf("EffectsApply changed the number of effects")
-		}
-		for i, ef := range effs {
-			var single []string
-			for _, x := range exprtransform.Exprs(ef) {
-				single = append(single, irsem.String(x))
-			}
-			switch o := ef.(type) {
-			case expr.RegStore:
-				if len(single) != 1 || single[0] != irsem.String(o.Value()) {
-					t.Fatalf("Exprs(%s) = %v", irsem.EffectString(ef), single)
-				}
-				n, ok := applied[i].(expr.RegStore)
-				if !ok || n.Key() != o.Key() || n.Width() != o.Width() ||
-					irsem.String(n.Value()) != irsem.String(wrap(o.Value())) {
-					t.Fatalf("EffectApply(%s) = %s", irsem.EffectString(ef), irsem.EffectString(applied[i]))
-				}
-			case expr.MemStore:
-				if len(single) != 2 || !sortedEq(single, []string{irsem.String(o.Addr()), irsem.String(o.Value())}) {
-					t.Fatalf("Exprs(%s) = %v", irsem.EffectString(ef), single)
-				}
-				n, ok := applied[i].(expr.MemStore)
-				if !ok || n.Key() != o.Key() || n.Width() != o.Width() ||
-					irsem.String(n.Value()) != irsem.String(wrap(o.Value())) ||
-					irsem.String(n.Addr()) != irsem.String(wrap(o.Addr())) {
-					t.Fatalf("EffectApply(%s) = %s", irsem.EffectString(ef), irsem.EffectString(applied[i]))
-				}
-			}
-		}
-		if nEff > 0 {
-			col.Class(fmt.Sprintf("effects/%d", nEff))
-		}
-		if col.WantSample() {
-			col.Sample(map[string]interface{}{"expr": before, "effects": effStrings(effs)})
-		} else {
-			col.SkipSample()
-		}
-	})
+	rapid.Check(t, propC28)
 }
+
+// FuzzC28 drives the same property with Go's coverage-guided fuzzer (thorough
+// tier only; see DESIGN.md).
+func FuzzC28(f *testing.F) { f.Fuzz(rapid.MakeFuzz(propC28)) }
 
 func effStrings(effs []expr.Effect) []string {
 	out := make([]string, len(effs))
